@@ -607,6 +607,9 @@ def stabiliseEndRest (env : Env) (fuel : Nat) : M Unit := do
   for (n, nu) in queue do
     for o in (← getNode n).observers do
       runAll env fuel o n nu now
+  modify fun s =>
+    let alive := s.aliveSet
+    { s with memos := s.memos.map fun (m, tbl) => (m, tbl.filter fun (_, n) => alive.contains n) }
   modify fun s => { s with status := .notStabilising }
 
 theorem stabiliseEnd_eq (env : Env) (fuel : Nat) :
